@@ -129,11 +129,45 @@ func applyDelta(s *clx.Stores, w, nbig int) {
 	} else {
 		s.Ledger.SetState(accts[3], []byte("e"), []byte(fmt.Sprintf("e%d", w)), nil)
 	}
+	// the EVM pattern on an EXISTING account: a nonce bump first (the account gets its dirty copy),
+	// then balance arithmetic through AddBalance / SubBalance in the same block
+	if w >= 3 {
+		b := accts[(w+1)%3]
+		s.Ledger.SetNonce(b, s.Ledger.GetNonce(b)+1)
+		simple(s).AddBalance(b, big.NewInt(int64(10*w)))
+		simple(s).SubBalance(b, big.NewInt(3))
+	}
+	// storage-only addresses: block w gives address stor(w+1) two state keys and NO account record
+	// (SetState alone never writes account-<addr>); block w+1 then gives it its first balance and nonce
+	// while it overwrites one of the existing keys and deletes the other
+	nx := storAddr(w + 1)
+	s.Ledger.SetState(nx, []byte("s0"), []byte(fmt.Sprintf("s0-%d", w)), nil)
+	s.Ledger.SetState(nx, []byte("s1"), []byte(fmt.Sprintf("s1-%d", w)), nil)
+	if w >= 2 {
+		cur := storAddr(w)
+		s.Ledger.SetBalance(cur, big.NewInt(int64(500+w)))
+		s.Ledger.SetNonce(cur, 1)
+		s.Ledger.SetState(cur, []byte("s0"), []byte(fmt.Sprintf("s0-%d-again", w)), nil)
+		s.Ledger.SetState(cur, []byte("s1"), nil, nil)
+	}
+}
+
+func storAddr(j int) *types.Address {
+	return types.NewAddress([]byte(fmt.Sprintf("verif-crash-stor-%03d", j)))
 }
 
 // dump of everything any delta can touch (maxBig: the largest "big" of any block)
-func dump(s *clx.Stores, maxBig int) string {
+func dump(s *clx.Stores, maxBig, nblocks int) string {
 	var sb strings.Builder
+	for j := 1; j <= nblocks+1; j++ {
+		a := storAddr(j)
+		sb.WriteString(fmt.Sprintf("stor%d:%s/%d", j, s.Ledger.GetBalance(a).String(), s.Ledger.GetNonce(a)))
+		for _, k := range []string{"s0", "s1"} {
+			ok, v := s.Ledger.GetState(a, []byte(k))
+			sb.WriteString(fmt.Sprintf("|%v:%q", ok, v))
+		}
+		sb.WriteString(";")
+	}
 	if maxBig > 0 {
 		hs := sha256.New()
 		for i := 0; i < maxBig; i++ {
@@ -143,7 +177,7 @@ func dump(s *clx.Stores, maxBig int) string {
 		sb.WriteString(fmt.Sprintf("big:%x;", hs.Sum(nil)))
 	}
 	for _, a := range accts {
-		sb.WriteString(s.Ledger.GetBalance(a).String())
+		sb.WriteString(fmt.Sprintf("%s/%d", s.Ledger.GetBalance(a).String(), s.Ledger.GetNonce(a)))
 		for _, k := range []string{"k0", "k1", "h", "e"} {
 			// existence flag and value: present-and-empty differs from absent
 			ok, v := s.Ledger.GetState(a, []byte(k))
@@ -184,7 +218,7 @@ func (w *world) observe(s *clx.Stores, kh int, uh, ut []*types.Hash) *lobs {
 	o.Version = s.Ledger.Version()
 	_, _, prev := simple(s).VerifJournalRange()
 	o.Root = w.t.In.Hash(prev)
-	d := dump(s, w.maxBig)
+	d := dump(s, w.maxBig, len(w.blocks))
 	o.Data = []uint64{999999}
 	for k := len(w.dumps) - 1; k >= 0; k-- {
 		if w.dumps[k] == d {
@@ -258,13 +292,13 @@ func runCase(line []byte) (interface{}, error) {
 			return nil, err
 		}
 		if pass == 1 {
-			w.dumps = []string{dump(s, w.maxBig)}
+			w.dumps = []string{dump(s, w.maxBig, len(w.blocks))}
 		}
 		for h := 1; h <= N; h++ {
 			w.execute(s, h, pass == 1)
 			if pass == 1 {
 				uh = append(uh, s.CL.GetChainMeta().BlockHash)
-				w.dumps = append(w.dumps, dump(s, w.maxBig))
+				w.dumps = append(w.dumps, dump(s, w.maxBig, len(w.blocks)))
 			} else if h == c.N || h == c.N+1 || h == N {
 				refs[h] = w.observe(s, kh, uh, ut)
 			}
